@@ -106,10 +106,14 @@ def match_known(mod, known, case, vio):
 
 
 STDERR_CAPTURE = [None]
+HANG_CONFIRMED = [False]
 
 
-def run_forked(mod, case):
+def run_forked(mod, case, timeout=None):
     """execute run_case in a forked child so that a native crash becomes an exception"""
+    first_attempt = timeout is None
+    if timeout is None:
+        timeout = float(os.environ.get("VERIF_CASE_TIMEOUT", getattr(mod, "CASE_TIMEOUT", 120)))
     r, w = os.pipe()
     errpath = STDERR_CAPTURE[0]
     pid = os.fork()
@@ -135,7 +139,7 @@ def run_forked(mod, case):
         os._exit(code)
     os.close(w)
     data = b""
-    deadline = time.time() + float(os.environ.get("VERIF_CASE_TIMEOUT", "120"))
+    deadline = time.time() + timeout
     import select
     while True:
         left = deadline - time.time()
@@ -143,6 +147,15 @@ def run_forked(mod, case):
             os.kill(pid, signal.SIGKILL)
             os.waitpid(pid, 0)
             os.close(r)
+            if first_attempt and getattr(mod, "HANG_RETRY_FACTOR", 0) and not HANG_CONFIRMED[0]:
+                # a hang candidate is re-run once with a larger budget before it is reported; if it then returns it was
+                # slow, not hung (tagged, so that the evidence shows it).  Once a hang is confirmed in this worker, later
+                # timeouts (Hypothesis shrinking the hanging case) are reported after the base budget.
+                res = run_forked(mod, case, timeout * mod.HANG_RETRY_FACTOR)
+                if isinstance(res, dict):
+                    res.setdefault("tags", []).append("watchdog:slow_but_returned")
+                return res
+            HANG_CONFIRMED[0] = True
             raise Violation("hang:" + getattr(mod, "case_label", lambda c: "")(case), "case did not return within the watchdog", clause="C12-hang")
         ready, _, _ = select.select([r], [], [], min(left, 1.0))
         if ready:
@@ -162,13 +175,25 @@ def run_forked(mod, case):
     sig = status & 0x7F
     label = getattr(mod, "case_label", lambda c: "")(case)
     tail = ""
+    report = ""
     if errpath:
         try:
             with open(errpath, errors="replace") as f:
-                tail = f.read()[-2500:]
+                report = f.read()[-30000:]
+                tail = report[-2500:]
         except OSError:
             pass
     import re
+    hook = getattr(mod, "sanitizer_alloc_failure", None)
+    if hook is not None and re.search(r"AddressSanitizer: (allocation-size-too-big|out-of-memory|requested allocation size|allocator is out of memory)", tail):
+        # the sanitizer's operator new aborts where the plain build throws std::bad_alloc: the check decides whether that is acceptable here
+        return hook(case, tail)
+    hook = getattr(mod, "sanitizer_benign_report", None)
+    if hook is not None:
+        # the check may classify a sanitizer report as outside its property (returns a result dict) or not (returns None)
+        res = hook(case, report)
+        if res is not None:
+            return res
     m = re.search(r"(SUMMARY: [^\n]*|runtime error: [^\n]*|corrupted[^\n]*|malloc\(\)[^\n]*|free\(\)[^\n]*|double free[^\n]*|terminate called[^\n]*)", tail)
     raise Violation("crash:" + label, "process died (wait status %d, signal %d) %s" % (status, sig, m.group(1) if m else ""),
                     observed=tail, clause="C12-crash")
